@@ -353,6 +353,7 @@ func isUnboundCtor(fn *ssa.Function) bool {
 type lifecycleOpts struct {
 	skipDeliveryAfterCancel bool
 	only                    string // "" = all sections; "closing" = ownership/closing rules only
+	catchExit               bool   // with only == "closing": also the catch-false-exits section
 }
 
 // stageLifecycleRules applies the C06 rule set to one stage model (shared with C09/C12 for fork and Join).
@@ -462,6 +463,12 @@ func stageLifecycleRules(c *core.Ctx, s *Stage, o lifecycleOpts) {
 	}
 
 	if o.only == "closing" {
+		if o.catchExit {
+			if c.Rules["catch-false-exits"] == nil {
+				c.Doc("catch-false-exits", 4, "the false edge of the catch role reaches exit without further events")
+			}
+			catchFalseExits(c, procs)
+		}
 		return
 	}
 	// ---- blocking operations ---------------------------------------------------
@@ -497,62 +504,7 @@ func stageLifecycleRules(c *core.Ctx, s *Stage, o lifecycleOpts) {
 	}
 
 	// ---- catch false edge exits ------------------------------------------------
-	for _, pr := range procs {
-		done := map[ssa.Instruction]bool{}
-		for _, p := range pr.an.AllPaths() {
-			for i := range p.Steps {
-				st := &p.Steps[i]
-				if !isCatchRole(st) {
-					continue
-				}
-				site := fmt.Sprintf("%s/catch@%s", pr.name, siteID(c, st))
-				// find the branch on its result
-				var br *ir.Step
-				bi := -1
-				for j := i + 1; j < len(p.Steps); j++ {
-					if p.Steps[j].Kind == ir.KBranch && ir.Same(p.Steps[j].Atom, st.R) {
-						br, bi = &p.Steps[j], j
-						break
-					}
-				}
-				if br == nil {
-					if !done[st.Instr] {
-						done[st.Instr] = true
-						c.Fail("catch-false-exits", site, st.Pos(), "the result of the catch role is not tested: a fail-fast stage would continue after its error")
-					}
-					continue
-				}
-				if br.Pol {
-					continue
-				}
-				ok := p.Exit == ir.ExitReturn
-				for j := bi + 1; j < len(p.Steps) && ok; j++ {
-					switch p.Steps[j].Kind {
-					case ir.KClose, ir.KReturn, ir.KBranch, ir.KEnter, ir.KLeave:
-					case ir.KStore:
-						// a write to a local variable of the goroutine (a flag, the state cell of a range-over-func
-						// body) is not an event anybody else can observe
-						if !cellAddr(p.Steps[j].A[0]) {
-							ok = false
-						}
-					case ir.KCall:
-						if !isWgDone(&p.Steps[j]) {
-							ok = false
-						}
-					default:
-						ok = false
-					}
-				}
-				if !ok {
-					c.Fail("catch-false-exits", site, st.Pos(), "after catch returned false the goroutine does not exit at once:\n%s", p)
-					done[st.Instr] = true
-				} else if !done[st.Instr] {
-					done[st.Instr] = true
-					c.Ok("catch-false-exits", site, st.Pos(), "false => exit")
-				}
-			}
-		}
-	}
+	catchFalseExits(c, procs)
 
 	// ---- loops -----------------------------------------------------------------
 	for _, pr := range procs {
@@ -1565,4 +1517,65 @@ func callerSliceRead(fn, stage *ssa.Function) (ssa.Instruction, string) {
 		return nil, ""
 	}
 	return visit(fn)
+}
+
+// catchFalseExits: after the catch role answered false the goroutine leaves at once - nothing is received, sent,
+// started or called any more, deferred functions included.
+func catchFalseExits(c *core.Ctx, procs []*proc) {
+	for _, pr := range procs {
+		done := map[ssa.Instruction]bool{}
+		for _, p := range pr.an.AllPaths() {
+			for i := range p.Steps {
+				st := &p.Steps[i]
+				if !isCatchRole(st) {
+					continue
+				}
+				site := fmt.Sprintf("%s/catch@%s", pr.name, siteID(c, st))
+				// find the branch on its result
+				var br *ir.Step
+				bi := -1
+				for j := i + 1; j < len(p.Steps); j++ {
+					if p.Steps[j].Kind == ir.KBranch && ir.Same(p.Steps[j].Atom, st.R) {
+						br, bi = &p.Steps[j], j
+						break
+					}
+				}
+				if br == nil {
+					if !done[st.Instr] {
+						done[st.Instr] = true
+						c.Fail("catch-false-exits", site, st.Pos(), "the result of the catch role is not tested: a fail-fast stage would continue after its error")
+					}
+					continue
+				}
+				if br.Pol {
+					continue
+				}
+				ok := p.Exit == ir.ExitReturn
+				for j := bi + 1; j < len(p.Steps) && ok; j++ {
+					switch p.Steps[j].Kind {
+					case ir.KClose, ir.KReturn, ir.KBranch, ir.KEnter, ir.KLeave:
+					case ir.KStore:
+						// a write to a local variable of the goroutine (a flag, the state cell of a range-over-func
+						// body) is not an event anybody else can observe
+						if !cellAddr(p.Steps[j].A[0]) {
+							ok = false
+						}
+					case ir.KCall:
+						if !isWgDone(&p.Steps[j]) {
+							ok = false
+						}
+					default:
+						ok = false
+					}
+				}
+				if !ok {
+					c.Fail("catch-false-exits", site, st.Pos(), "after catch returned false the goroutine does not exit at once:\n%s", p)
+					done[st.Instr] = true
+				} else if !done[st.Instr] {
+					done[st.Instr] = true
+					c.Ok("catch-false-exits", site, st.Pos(), "false => exit")
+				}
+			}
+		}
+	}
 }
